@@ -100,3 +100,63 @@ package electreIII
 //@ func evaluateAlternativesPair
 //@   property C05 C06
 //@   ensures [unit_diagonal] i == j ==> result == 1.0
+
+// ---- distillation helpers and the final ranking (C01, C05, C06)
+
+//@ func Max
+//@   property C05
+//@   panics_iff [empty] len(*values) == 0
+//@   ensures [maximum] (forall k int :: 0 <= k && k < len(*values) ==> (*values)[k] <= result) && (exists k int :: 0 <= k && k < len(*values) && (*values)[k] == result)
+//@   loop 1 invariant [partial] (forall k int :: 0 <= k && k < iter ==> (*values)[k] <= best) && (exists k int :: 0 <= k && k < len(*values) && (*values)[k] == best) && len(*values) > 0
+
+//@ func minusValuesFrom
+//@   property C05
+//@   assigns *values
+//@   ensures [mirrored] *values == old(*values) && forall k int :: 0 <= k && k < len(*values) ==> (*values)[k] == value - old((*values)[k])
+//@   loop 1 invariant [done] *values == old(*values) && forall k int :: 0 <= k && k < len(*values) ==> (*values)[k] == (k < iter ? value - old((*values)[k]) : old((*values)[k]))
+
+//@ func samePositions
+//@   property C05
+//@   ensures [constant] fresh(result) && fresh(*result) && len(*result) == size && forall k int :: 0 <= k && k < size ==> (*result)[k] == value
+//@   loop 1 invariant [filled] fresh(pos) && len(pos) == size && forall k int :: 0 <= k && k < iter ==> pos[k] == value
+
+//@ func calcQuality
+//@   property C05 C06
+//@   ensures [strength_minus_weakness] fresh(result) && fresh(*result) && len(*result) == len(*strength) && forall k int :: 0 <= k && k < len(*strength) ==> (*result)[k] == (*strength)[k] - (*weakness)[k]
+//@   loop 1 invariant [filled] fresh(quality) && len(quality) == len(*strength) && forall k int :: 0 <= k && k < iter ==> quality[k] == (*strength)[k] - (*weakness)[k]
+
+//@ pred electreEval(e model.AlternativeResult, asc int, desc int) =
+//@      typeis(e.Evaluation, ElectreIIIEvaluation) && e.Evaluation.(ElectreIIIEvaluation).AscendingIndex == asc && e.Evaluation.(ElectreIIIEvaluation).DescendingIndex == desc
+
+//@ func EvaluateRanking
+//@   property C01 C05 C06
+//@   requires [same_length] len(*descending) >= len(*ascending) && len(*alternatives) >= len(*ascending)
+//@   ensures [one_entry_each] result != nil && fresh(result) && len(*result) == len(*ascending)
+//@   ensures [entries] forall a int :: 0 <= a && a < len(*ascending) ==> (*result)[a].Alternative == (*alternatives)[a] && electreEval((*result)[a].AlternativeResult, (*ascending)[a], (*descending)[a])
+//@   ensures [links_complete] forall a int, b int :: 0 <= a && a < len(*ascending) && 0 <= b && b < len(*ascending) && a != b
+//@             && (*ascending)[a] <= (*ascending)[b] && (*descending)[a] <= (*descending)[b] ==>
+//@             exists m int :: 0 <= m && m < len((*result)[a].BetterThanOrSameAs) && (*result)[a].BetterThanOrSameAs[m] == (*alternatives)[b].Id
+//@   ensures [links_sound] forall a int, m int :: 0 <= a && a < len(*ascending) && 0 <= m && m < len((*result)[a].BetterThanOrSameAs) ==>
+//@             exists b int :: 0 <= b && b < len(*ascending) && a != b && (*result)[a].BetterThanOrSameAs[m] == (*alternatives)[b].Id
+//@             && (*ascending)[a] <= (*ascending)[b] && (*descending)[a] <= (*descending)[b]
+//@   loop 1 invariant [count] len(ranking) == iter && fresh(ranking)
+//@   loop 1 invariant [entries] forall a int :: 0 <= a && a < iter ==> ranking[a].Alternative == (*alternatives)[a] && electreEval(ranking[a].AlternativeResult, (*ascending)[a], (*descending)[a])
+//@   loop 1 invariant [links_complete] forall a int, b int :: 0 <= a && a < iter && 0 <= b && b < len(*ascending) && a != b
+//@             && (*ascending)[a] <= (*ascending)[b] && (*descending)[a] <= (*descending)[b] ==>
+//@             exists m int :: 0 <= m && m < len(ranking[a].BetterThanOrSameAs) && ranking[a].BetterThanOrSameAs[m] == (*alternatives)[b].Id
+//@   loop 1 invariant [links_sound] forall a int, m int :: 0 <= a && a < iter && 0 <= m && m < len(ranking[a].BetterThanOrSameAs) ==>
+//@             exists b int :: 0 <= b && b < len(*ascending) && a != b && ranking[a].BetterThanOrSameAs[m] == (*alternatives)[b].Id
+//@             && (*ascending)[a] <= (*ascending)[b] && (*descending)[a] <= (*descending)[b]
+//@   loop 2 invariant [ctx] len(ranking) == ia && fresh(ranking) && fresh(betterOrSameAs) && 0 <= ia && ia < len(*ascending) && alt1Asc == (*ascending)[ia] && alt1Desc == (*descending)[ia]
+//@   loop 2 invariant [earlier_entries] forall a int :: 0 <= a && a < ia ==> ranking[a].Alternative == (*alternatives)[a] && electreEval(ranking[a].AlternativeResult, (*ascending)[a], (*descending)[a])
+//@   loop 2 invariant [earlier_complete] forall a int, b int :: 0 <= a && a < ia && 0 <= b && b < len(*ascending) && a != b
+//@             && (*ascending)[a] <= (*ascending)[b] && (*descending)[a] <= (*descending)[b] ==>
+//@             exists m int :: 0 <= m && m < len(ranking[a].BetterThanOrSameAs) && ranking[a].BetterThanOrSameAs[m] == (*alternatives)[b].Id
+//@   loop 2 invariant [earlier_sound] forall a int, m int :: 0 <= a && a < ia && 0 <= m && m < len(ranking[a].BetterThanOrSameAs) ==>
+//@             exists b int :: 0 <= b && b < len(*ascending) && a != b && ranking[a].BetterThanOrSameAs[m] == (*alternatives)[b].Id
+//@             && (*ascending)[a] <= (*ascending)[b] && (*descending)[a] <= (*descending)[b]
+//@   loop 2 invariant [separate] forall a int :: 0 <= a && a < ia ==> arr(ranking[a].BetterThanOrSameAs) != arr(betterOrSameAs)
+//@   loop 2 invariant [current_complete] forall b int :: 0 <= b && b < iter && ia != b && (*ascending)[ia] <= (*ascending)[b] && (*descending)[ia] <= (*descending)[b] ==>
+//@             exists m int :: 0 <= m && m < len(betterOrSameAs) && betterOrSameAs[m] == (*alternatives)[b].Id
+//@   loop 2 invariant [current_sound] forall m int :: 0 <= m && m < len(betterOrSameAs) ==>
+//@             exists b int :: 0 <= b && b < iter && ia != b && betterOrSameAs[m] == (*alternatives)[b].Id && (*ascending)[ia] <= (*ascending)[b] && (*descending)[ia] <= (*descending)[b]
